@@ -461,4 +461,9 @@ def obligations(tier, seed):
     for method in ("First", "Last", "Highest", "Lowest"):
         nm = f"activation-twice/{method}/N3"
         chained.append((nm, ob_method(method, 3, (True,) * 3, (True,) * 3, None, rounds=2, label=nm, prop=PROPERTY)))
+    # degrees that may be NaN (a NaN input): "the rules selected by its activation method" - NaN is neither positive nor above a
+    # threshold, takes no slot and does not enter Proportional's sum
+    for method in ("Proportional", "First", "Highest"):
+        nm = f"activation-nan-degrees/{method}/N3"
+        chained.append((nm, ob_method(method, 3, (True,) * 3, (True,) * 3, None, label=nm, prop=PROPERTY, nan_degrees=True)))
     return _obligations(tier, seed) + chained + conform.obligations(PROPERTY, tier)
